@@ -451,6 +451,14 @@ class Time(Parameterized):
 #-----------------------------------------------------------------------------
 
 
+def _strftime(value, fmt):
+    """
+    strftime with the year zero-padded to four digits, as strptime('%Y')
+    requires (the C library does not pad %Y for years before 1000).
+    """
+    return value.strftime(fmt.replace('%Y', '%04d' % value.year))
+
+
 class _NeverProduced:
     """Value of a generator's `_Dynamic_time` before it produced anything: differs from every time."""
 
@@ -964,7 +972,7 @@ class Date(Number):
             return None
         if not isinstance(value, (dt.datetime, dt.date)): # i.e np.datetime64
             value = value.astype(dt.datetime)
-        return value.strftime("%Y-%m-%dT%H:%M:%S.%f")
+        return _strftime(value, "%Y-%m-%dT%H:%M:%S.%f")
 
     @classmethod
     def deserialize(cls, value):
@@ -1015,7 +1023,7 @@ class CalendarDate(Number):
     def serialize(cls, value):
         if value is None:
             return None
-        return value.strftime("%Y-%m-%d")
+        return _strftime(value, "%Y-%m-%d")
 
     @classmethod
     def deserialize(cls, value):
@@ -1433,9 +1441,9 @@ class DateRange(Range):
                 v = v.astype(dt.datetime)
             # Separate date and datetime to deserialize to the right type.
             if type(v) is dt.date:
-                v = v.strftime("%Y-%m-%d")
+                v = _strftime(v, "%Y-%m-%d")
             else:
-                v = v.strftime("%Y-%m-%dT%H:%M:%S.%f")
+                v = _strftime(v, "%Y-%m-%dT%H:%M:%S.%f")
             serialized.append(v)
         return serialized
 
@@ -1493,7 +1501,7 @@ class CalendarDateRange(Range):
         if value is None:
             return None
         # As JSON has no tuple representation
-        return [v.strftime("%Y-%m-%d") for v in value]
+        return [_strftime(v, "%Y-%m-%d") for v in value]
 
     @classmethod
     def deserialize(cls, value):
